@@ -1,6 +1,7 @@
 """C05 — non-decimal radix string->float: tables, key agreement, beliefs (DESIGN §4)."""
 from rules import tbl_parse_float as T
 from rules import pipeline as P
+from rules import extra as X
 from rules.core import guarded
 
 INFO = {
@@ -27,3 +28,6 @@ def run(col, configs, tier):
         guarded(col, P.rule_slow_fallback, facts)
         guarded(col, P.rule_zero_shortcircuit, facts)
         guarded(col, P.rule_step_bounded_accumulation, facts)
+        guarded(col, X.rule_sticky_flag, facts)
+        guarded(col, X.rule_sticky_scans, facts)
+        guarded(col, X.rule_bigfloat_bits, facts)
